@@ -115,4 +115,230 @@ theorem parse_ok (f : Facts) (o : POpts) (bs : Seq) (a : Aln) (h : Nexus.parse f
     repeat' (split at hp <;> try (simp at hp))
     exact ⟨_, hp⟩
 
+/-! ### the Nexus parser never panics and never exits (no such path exists in the model; proved, not assumed) -/
+
+section Kinds
+open Gv.Model.Fmt.Phylip (Stop R)
+
+/-- `Soft r`: `r` is a success, an explicit error or a `hang` — not `panic`, not `exit` -/
+def Soft {α} (r : R α) : Prop := r ≠ .error .panic ∧ r ≠ .error .exit
+
+theorem consumeComment_soft (f : Facts) : ∀ (fuel : Nat) (inp : Seq) (e : Bool), Soft (consumeComment f fuel inp e) := by
+  intro fuel
+  induction fuel with
+  | zero => intro inp e; simp [consumeComment, Soft]
+  | succ k ih =>
+    intro inp e
+    unfold consumeComment
+    simp only
+    repeat' split
+    all_goals (first | exact ih _ _ | simp [Soft, pure, Except.pure])
+
+theorem skipCommand_soft : ∀ (fuel : Nat) (inp : Seq), Soft (skipCommand fuel inp) := by
+  intro fuel
+  induction fuel with
+  | zero => intro inp; simp [skipCommand, Soft]
+  | succ k ih =>
+    intro inp
+    unfold skipCommand
+    simp only
+    repeat' split
+    all_goals (first | exact ih _ | simp [Soft, pure, Except.pure])
+
+theorem skipKey_soft (inp : Seq) : Soft (skipKey inp) := by
+  unfold skipKey
+  simp only
+  repeat' split
+  all_goals simp [Soft, pure, Except.pure]
+
+theorem skipBlock_soft : ∀ (fuel : Nat) (inp : Seq), Soft (skipBlock fuel inp) := by
+  intro fuel
+  induction fuel with
+  | zero => intro inp; simp [skipBlock, Soft]
+  | succ k ih =>
+    intro inp
+    unfold skipBlock
+    simp only
+    repeat' split
+    all_goals (first | exact ih _ | simp [Soft, pure, Except.pure])
+
+theorem bind_soft {α β} (x : R α) (g : α → R β) (hx : Soft x) (hg : ∀ a, Soft (g a)) : Soft (x >>= g) := by
+  cases x with
+  | ok a => exact hg a
+  | error e =>
+    simp only [bind, Except.bind]
+    obtain ⟨h1, h2⟩ := hx
+    exact ⟨by intro h; cases h; exact h1 rfl, by intro h; cases h; exact h2 rfl⟩
+
+theorem dimensions_soft (f : Facts) (w : Bool) : ∀ (fuel : Nat) (inp : Seq) (a b : Int), Soft (dimensions f w fuel inp a b) := by
+  intro fuel
+  induction fuel with
+  | zero => intro inp a b; simp [dimensions, Soft]
+  | succ k ih =>
+    intro inp a b
+    unfold dimensions
+    simp only
+    repeat' split
+    all_goals (first
+      | exact ih _ _ _
+      | exact bind_soft _ _ (skipKey_soft _) (fun _ => ih _ _ _)
+      | simp [Soft, pure, Except.pure])
+
+theorem taxlabelsLoop_soft : ∀ (fuel : Nat) (inp : Seq) (acc : List Name), Soft (taxlabelsLoop fuel inp acc) := by
+  intro fuel
+  induction fuel with
+  | zero => intro inp acc; simp [taxlabelsLoop, Soft]
+  | succ k ih =>
+    intro inp acc
+    unfold taxlabelsLoop
+    simp only
+    repeat' split
+    all_goals (first | exact ih _ _ | simp [Soft, pure, Except.pure])
+
+theorem parseTaxa_soft (f : Facts) : ∀ (fuel : Nat) (inp : Seq) (n : Int) (ls : List Name), Soft (parseTaxa f fuel inp n ls) := by
+  intro fuel
+  induction fuel with
+  | zero => intro inp n ls; simp [parseTaxa, Soft]
+  | succ k ih =>
+    intro inp n ls
+    unfold parseTaxa
+    simp only
+    repeat' split
+    all_goals (first
+      | exact ih _ _ _
+      | exact bind_soft _ _ (dimensions_soft f false _ _ _ _) (fun _ => ih _ _ _)
+      | exact bind_soft _ _ (taxlabelsLoop_soft _ _ _) (fun _ => ih _ _ _)
+      | exact bind_soft _ _ (consumeComment_soft f _ _ _) (fun _ => ih _ _ _)
+      | exact bind_soft _ _ (skipCommand_soft _ _) (fun _ => ih _ _ _)
+      | simp [Soft, pure, Except.pure])
+
+theorem formatChar_soft (inp : Seq) : Soft (formatChar inp) := by
+  unfold formatChar
+  simp only
+  repeat' split
+  all_goals simp [Soft, pure, Except.pure]
+
+theorem formatLoop_soft : ∀ (fuel : Nat) (inp : Seq) (d : Data), Soft (formatLoop fuel inp d) := by
+  intro fuel
+  induction fuel with
+  | zero => intro inp d; simp [formatLoop, Soft]
+  | succ k ih =>
+    intro inp d
+    unfold formatLoop
+    simp only
+    repeat' split
+    all_goals (first
+      | exact ih _ _
+      | exact bind_soft _ _ (formatChar_soft _) (fun _ => ih _ _)
+      | exact bind_soft _ _ (skipKey_soft _) (fun _ => ih _ _)
+      | simp [Soft, pure, Except.pure])
+
+theorem rowLoop_soft (f : Facts) : ∀ (fuel : Nat) (inp acc : Seq), Soft (rowLoop f fuel inp acc) := by
+  intro fuel
+  induction fuel with
+  | zero => intro inp acc; simp [rowLoop, Soft]
+  | succ k ih =>
+    intro inp acc
+    unfold rowLoop
+    simp only
+    repeat' split
+    all_goals (first | exact ih _ _ | simp [Soft, pure, Except.pure])
+
+theorem matrixLoop_soft (f : Facts) : ∀ (fuel : Nat) (inp : Seq) (rows : List XRow), Soft (matrixLoop f fuel inp rows) := by
+  intro fuel
+  induction fuel with
+  | zero => intro inp rows; simp [matrixLoop, Soft]
+  | succ k ih =>
+    intro inp rows
+    unfold matrixLoop
+    simp only
+    repeat' split
+    all_goals (first
+      | exact ih _ _
+      | exact bind_soft _ _ (consumeComment_soft f _ _ _) (fun _ => ih _ _)
+      | exact bind_soft _ _ (rowLoop_soft f _ _ _) (fun _ => ih _ _)
+      | simp [Soft, pure, Except.pure])
+
+theorem parseData_soft (f : Facts) : ∀ (fuel : Nat) (inp : Seq) (d : Data), Soft (parseData f fuel inp d) := by
+  intro fuel
+  induction fuel with
+  | zero => intro inp d; simp [parseData, Soft]
+  | succ k ih =>
+    intro inp d
+    unfold parseData
+    simp only
+    repeat' split
+    all_goals (first
+      | exact ih _ _
+      | exact bind_soft _ _ (dimensions_soft f true _ _ _ _) (fun _ => ih _ _)
+      | exact bind_soft _ _ (formatLoop_soft _ _ _) (fun _ => ih _ _)
+      | exact bind_soft _ _ (matrixLoop_soft f _ _ _) (fun _ => ih _ _)
+      | exact bind_soft _ _ (consumeComment_soft f _ _ _) (fun _ => ih _ _)
+      | exact bind_soft _ _ (skipCommand_soft _ _) (fun _ => ih _ _)
+      | simp [Soft, pure, Except.pure])
+
+theorem topLoop_soft (f : Facts) : ∀ (fuel : Nat) (inp : Seq) (top : Top), Soft (topLoop f fuel inp top) := by
+  intro fuel
+  induction fuel with
+  | zero => intro inp top; simp [topLoop, Soft]
+  | succ k ih =>
+    intro inp top
+    constructor
+    all_goals (
+      intro h
+      unfold topLoop at h
+      simp only [bind, Except.bind, pure, Except.pure] at h
+      have h1 := fun a b c => (consumeComment_soft f a b c)
+      have h2 := fun a b c d => (parseTaxa_soft f a b c d)
+      have h3 := fun a b c => (parseData_soft f a b c)
+      have h4 := fun a b => (skipBlock_soft a b)
+      have h5 := fun a b => (ih a b)
+      simp only [Soft] at h1 h2 h3 h4 h5
+      repeat' (split at h <;> try (simp at h))
+      all_goals simp_all)
+
+theorem addRow_soft (f : Facts) (d : Data) (b : Bag) (r : XRow) : Soft (addRow f d b r) := by
+  unfold addRow
+  repeat' split
+  all_goals simp [Soft, pure, Except.pure]
+
+theorem foldlM_soft (f : Facts) (d : Data) : ∀ (rows : List XRow) (b : Bag), Soft (rows.foldlM (addRow f d) b)
+  | [], b => by simp [Soft, pure, Except.pure]
+  | r :: rs, b => by
+    simp only [List.foldlM_cons]
+    exact bind_soft _ _ (addRow_soft f d b r) (fun b' => foldlM_soft f d rs b')
+
+theorem build_soft (f : Facts) (o : POpts) (top : Top) : Soft (build f o top) := by
+  constructor
+  all_goals (
+    intro h
+    unfold build at h
+    simp only [bind, Except.bind, pure, Except.pure] at h
+    have h1 := fun d rows b => (foldlM_soft f d rows b)
+    simp only [Soft] at h1
+    repeat' (split at h <;> try (simp at h))
+    all_goals simp_all)
+
+/-- the Nexus parser (every combination of the repairs) never panics and never exits -/
+theorem parse_soft (f : Facts) (o : POpts) (bs : Seq) : Nexus.parse f o bs ≠ .panic ∧ Nexus.parse f o bs ≠ .exit := by
+  have key : Soft (parseR f o bs) := by
+    constructor
+    all_goals (
+      intro h
+      unfold parseR at h
+      simp only [bind, Except.bind, pure, Except.pure] at h
+      have h1 := fun a b c => (topLoop_soft f a b c)
+      have h2 := fun a b => (build_soft f a b)
+      simp only [Soft] at h1 h2
+      repeat' (split at h <;> try (simp at h))
+      all_goals simp_all)
+  unfold Nexus.parse
+  cases hp : parseR f o bs with
+  | ok a => simp [toOutcome]
+  | error e =>
+    rw [hp] at key
+    cases e <;> simp [toOutcome, Soft] at key ⊢
+
+end Kinds
+
 end Gv.Proofs.NexusOutcome
